@@ -125,6 +125,11 @@ def _common_ops(variants):
             ops.append({"op": "write", "path": st.id + ".d", "content": st.id + ": " + " ".join(st.hidden) + "\n",
                         "label": "leftover depfile " + st.id + ".d"})
     for st in v0.stmts:
+        if st.depfile and not st.deps:
+            # what a compiler that was killed half way left of its depfile: it does not parse, and looking is not touching
+            ops.append({"op": "write", "path": st.id + ".d", "content": "cut off before the colo", "label": "damaged depfile " + st.id + ".d"})
+            break
+    for st in v0.stmts:
         if st.rsp:
             # a response file kept because its command failed in an earlier build
             ops.append({"op": "write", "path": st.rsp[0], "content": st.rsp[1], "label": "response file %s kept by a failed build" % st.rsp[0]})
@@ -320,4 +325,18 @@ def readonly_scenarios(tier="quick"):
     T.append(scenario("c19/compdb_bytes", "c19", [wv], ops=[tool_op("compdb", ["-t", "compdb"])], init=[], depth=1,
                       tags=["compdb"]))
     T[-1]["ops"][0]["tool_kind"] = "compdb"
+    # ... and in a working directory whose own name needs escaping (the "directory" member of every entry): the harness answers
+    # getcwd() for the invocation (VERIF_CWD)
+    cv = Variant("v0", [Stmt("a.o", ex=["a.c"]), Stmt("lib", ex=["a.o"], rsp=("lib.rsp", "a.o")), Stmt("exe", ex=["lib"])])
+    cops = []
+    for cwd in ('/w/qu"ote', "/w/back\\slash", "/w/tab\there", "/w/bell\x07x", "/w/new\nline", "/w/caf\xc3\xa9"):
+        cwd = cwd.encode("latin-1").decode("unicode_escape")
+        for args in (["-t", "compdb"], ["-t", "compdb", "-x"], ["-t", "compdb-targets", "exe"], ["-t", "compdb-targets", "-x", "lib", "a.o"]):
+            t = tool_op("compdb", args)
+            t["tool_kind"] = "compdb"
+            t["no_expand"] = True
+            t["env"] = {"VERIF_CWD": cwd}
+            t["label"] += " (in %r)" % cwd
+            cops.append(t)
+    T.append(scenario("c19/compdb_working_directory", "c19", [cv], ops=cops, init=[], depth=1, tags=["compdb"]))
     return T
